@@ -189,6 +189,11 @@ func (w *world) crashAndCheckT(onlyAfterLastCommit bool, torn bool) {
 		_, dup := got[tag]
 		vf.Assert(!dup, "no row appears twice after restart")
 		got[tag] = row.GetValue(sc, 1).ToInteger()
+		wantS := "s"
+		if w.big {
+			wantS = bigStr
+		}
+		vf.Assert(row.GetValue(sc, 2).ToVarchar() == wantS, "the string column of every row reads back as stored")
 	}
 	ok := false
 	for _, a := range allowed {
